@@ -83,6 +83,18 @@ class JetSeq(Sequence[T]):
     def tail(self) -> T: ...  # noqa
 
 
+class Helper:
+    def helper(self) -> int: ...  # noqa
+
+
+class MixJets(Helper, Iterable[Jet]):
+    "an ordinary mixin class is listed before the base that carries the type information"
+
+
+class MixColl(Helper, Vec[Trk]):
+    pass
+
+
 class Box(Generic[T]):
     "derives directly from Generic"
     def get(self) -> T: ...  # noqa
@@ -121,6 +133,8 @@ class Evt:
     def lead(self) -> Jet: ...  # noqa
     def jag(self) -> Jagged[float]: ...  # noqa
     def tj(self) -> TaggedJets[Trk]: ...  # noqa
+    def mj(self) -> MixJets: ...  # noqa
+    def mc(self) -> MixColl: ...  # noqa
     def sw(self) -> Swapped[int, Jet]: ...  # noqa
     def kc(self) -> KeyedColl[int, Trk]: ...  # noqa
     def js(self) -> JetSeq[Jet]: ...  # noqa
@@ -186,6 +200,10 @@ TABLE = [
     ("e.jag().First()", Iterable[float]), ("e.jag().First().First()", float), ("e.jag().SelectMany(lambda r: r)", Iterable[float]), ("e.jag()[0][0]", float),
     ("e.jag().Select(lambda r: r.Count())", Iterable[int]), ("e.jag().depth()", int),
     ("e.tj().First()", Jet), ("e.tj().First().pt()", float), ("e.tj().Select(lambda j: j.eta())", Iterable[float]), ("e.tj().tag()", Trk),
+    # a mixin listed first; unary minus on a bool
+    ("e.mj().First()", Jet), ("e.mj().Select(lambda j: j.pt())", Iterable[float]), ("e.mj()[0].eta()", float), ("e.mj().helper()", int),
+    ("e.mc().at(0)", Trk), ("e.mc().items().First().q()", int), ("e.mc().helper()", int),
+    ("-e.ok()", int), ("-e.lead().tagged() + 1", int),
     # the lambda is handed over by keyword
     ("e.Jets().Where(filter=lambda j: j.pt() > 1)", Iterable[Jet]), ("e.Jets().Where(filter=lambda j: j.tagged()).First()", Jet),
     ("e.Jets().Where(filter=lambda j: j.pt() > 1).Select(f=lambda j: j.idx())", Iterable[int]), ("e.Jets().SelectMany(func=lambda j: j.Tracks()).Count()", int),
@@ -274,7 +292,7 @@ STREAM = [
     ("SelectMany", "lambda e: e.Jets().Select(lambda j: j.pt())", float, None), ("SelectMany", "lambda e: e.kc()", Trk, None), ("Select", "lambda e: e.sw().first()", Jet, None),
     ("Where", "lambda e: e.met() > 1", Evt, None), ("Where", "lambda e: e.ok()", Evt, None), ("Where", "lambda e: e.ok() and not e.lead().tagged()", Evt, None),
     ("Where", "lambda e: e.met()", "ValueError", None), ("Where", "lambda e: e.n()", "ValueError", None), ("Where", "lambda e: e.lead()", "ValueError", None),
-    ("Where", "lambda e: e.unk()", "ValueError", None), ("Select", "lambda e: e.Jets().Where(filter=lambda j: j.pt())", "ValueError", None),
+    ("Where", "lambda e: e.unk()", "ValueError", None), ("Where", "lambda e: -e.ok()", "ValueError", None), ("SelectMany", "lambda e: e.mj()", Jet, None), ("Select", "lambda e: e.Jets().Where(filter=lambda j: j.pt())", "ValueError", None),
     # second level: derived stream first
     ("Select", "lambda j: j.pt()", float, ("SelectMany", "lambda e: e.Jets()")),
     ("Select", "lambda js: js.First()", Jet, ("Select", "lambda e: e.Jets()")),
